@@ -13,20 +13,32 @@ import (
 // MatchWildcardRegexp creates a Regular Expression from a gNMI wild-carded path
 // This follows the gNMI wildcard syntax
 // https://github.com/openconfig/reference/blob/master/rpc/gnmi/gnmi-path-conventions.md#wildcards-in-paths
+// It panics if the expression cannot be compiled: use CompileWildcardRegexp for request text
 func MatchWildcardRegexp(query string, exact bool) *regexp.Regexp {
+	return regexp.MustCompile(wildcardExpression(query, exact))
+}
+
+// CompileWildcardRegexp creates a Regular Expression from a gNMI wild-carded path taken from a request.
+// The size of the expression grows with the number of wildcards in the query and the regexp package
+// refuses expressions above its size limit, so failure is reported as an error.
+func CompileWildcardRegexp(query string, exact bool) (*regexp.Regexp, error) {
+	return regexp.Compile(wildcardExpression(query, exact))
+}
+
+func wildcardExpression(query string, exact bool) string {
 	const legalChars = `a-zA-Z0-9_:,\-\.`
 	// The query is request text: quote it, then give the (quoted) wildcards their meaning
 	regexpQuery := regexp.QuoteMeta(query)
 	regexpQuery = strings.ReplaceAll(regexpQuery, `\.\.\.`, `.*`)             // greedy
 	regexpQuery = strings.ReplaceAll(regexpQuery, `\*`, `[`+legalChars+`]*?`) // Not greedy
 	if exact {
-		return regexp.MustCompile(fmt.Sprintf("^%s$", regexpQuery))
+		return fmt.Sprintf("^%s$", regexpQuery)
 	}
 	if strings.HasSuffix(query, "/") {
-		return regexp.MustCompile(fmt.Sprintf("^%s", regexpQuery))
+		return fmt.Sprintf("^%s", regexpQuery)
 	}
 	// Match the addressed node and what lies beneath it, not siblings that share a textual prefix
-	return regexp.MustCompile(fmt.Sprintf(`^%s(/|\[|$)`, regexpQuery))
+	return fmt.Sprintf(`^%s(/|\[|$)`, regexpQuery)
 }
 
 // MatchWildcardChNameRegexp creates a Regular Expression from a wild-carded path
